@@ -17,9 +17,9 @@ use std::sync::{Arc, Mutex};
 use std::time::Duration;
 
 #[derive(Clone, Debug)]
-pub struct Cfg { pub w: u16, pub h: u16, pub lay: u32, pub name: String, pub dom: String, pub user: String, pub pw: String, pub hash: bool, pub ra: bool, pub blank: bool, pub auto: bool, pub nla: bool }
+pub struct Cfg { pub w: u16, pub h: u16, pub lay: u32, pub name: String, pub dom: String, pub user: String, pub pw: String, pub hash: bool, pub ra: bool, pub blank: bool, pub auto: bool, pub nla: bool, pub check: bool }
 #[derive(Clone, Debug)]
-pub struct SrvCfg { pub sel: u32, pub id: usize, pub uid: u16, pub version: u32, pub license_new: bool, pub share: u32, pub caps: Vec<Vec<u8>>, pub source: Vec<u8>, pub chal_flags: u32, pub inputs: Vec<String>, pub script: Vec<Act> }
+pub struct SrvCfg { pub sel: u32, pub id: usize, pub uid: u16, pub version: u32, pub license_new: bool, pub share: u32, pub caps: Vec<Vec<u8>>, pub source: Vec<u8>, pub chal_flags: u32, pub inputs: Vec<String>, pub script: Vec<Act>, pub reactivate: Option<u32> }
 #[derive(Clone, Debug)]
 pub enum Act { Send(Vec<u8>), Pause(u64), CloseNotify, Close }
 
@@ -74,6 +74,8 @@ pub fn serve(raw: UnixStream, s: SrvCfg, acc_key: Vec<u8>, rawlog: Arc<Mutex<Vec
     let p = SrvParams { uid: s.uid, version: s.version, selected: sel, license_new: s.license_new };
     let mut sdrq = 0usize;
     let mut since_da: Option<usize> = None;
+    let mut cur_share = s.share;
+    let mut reactivated = false;
     loop {
         let f = match read_tpkt(&mut tls) { Some(f) => f, None => break };
         log.frames.push(f.clone());
@@ -97,12 +99,23 @@ pub fn serve(raw: UnixStream, s: SrvCfg, acc_key: Vec<u8>, rawlog: Arc<Mutex<Vec
                         let n = n + 1;
                         since_da = Some(n);
                         if n == 5 {
-                            for b in &[refsrv::synchronize(s.share, 1002), refsrv::control(s.share, 4, 0, 0), refsrv::control(s.share, 2, s.uid, 0x03ea), refsrv::font_map(s.share)] {
+                            for b in &[refsrv::synchronize(cur_share, 1002), refsrv::control(cur_share, 4, 0, 0), refsrv::control(cur_share, 2, s.uid, 0x03ea), refsrv::font_map(cur_share)] {
                                 let fr = refsrv::mcs_sdin(1003, b);
                                 log.srv_msgs.push(fr[7..].to_vec());
                                 ans.extend(fr);
                             }
-                            if !s.script.is_empty() {
+                            // a second activation with a new share id (deactivate-all, demand-active)
+                            if let (Some(ns), false) = (s.reactivate, reactivated) {
+                                reactivated = true;
+                                for b in &[refsrv::deactivate_all(cur_share, &s.source), refsrv::demand_active(ns, &s.source, &s.caps)] {
+                                    let fr = refsrv::mcs_sdin(1003, b);
+                                    log.srv_msgs.push(fr[7..].to_vec());
+                                    ans.extend(fr);
+                                }
+                                cur_share = ns;
+                                since_da = Some(0);
+                            }
+                            if !s.script.is_empty() && (s.reactivate.is_none() || (reactivated && since_da == Some(5))) {
                                 if !write_all(&mut tls, &ans) { break; }
                                 ans.clear();
                                 for act in &s.script {
@@ -150,12 +163,13 @@ pub fn run_conn(c: &Cfg, s: &SrvCfg) -> Run {
     let (s2, key2, rl2) = (s.clone(), key.clone(), rawlog.clone());
     let th = std::thread::spawn(move || serve(b, s2, key2, rl2));
     let (c2, inputs) = (c.clone(), s.inputs.clone());
+    let nreads = if s.reactivate.is_some() { 11 } else { 5 };
     let res = catch_unwind(AssertUnwindSafe(move || -> Result<(), String> {
         let mut con = Connector::new().screen(c2.w, c2.h).credentials(c2.dom.clone(), c2.user.clone(), c2.pw.clone())
-            .set_restricted_admin_mode(c2.ra).auto_logon(c2.auto).blank_creds(c2.blank).use_nla(c2.nla).layout(layout_of(c2.lay)).name(c2.name.clone()).check_certificate(false);
+            .set_restricted_admin_mode(c2.ra).auto_logon(c2.auto).blank_creds(c2.blank).use_nla(c2.nla).layout(layout_of(c2.lay)).name(c2.name.clone()).check_certificate(c2.check);
         if c2.hash { con = con.set_password_hash(nt_hash.clone()); }
         let mut client = con.connect(a).map_err(|e| format!("connect:{:?}", e))?;
-        for i in 0..5 { client.read(|_| {}).map_err(|e| format!("read{}:{:?}", i, e))?; }
+        for i in 0..nreads { client.read(|_| {}).map_err(|e| format!("read{}:{:?}", i, e))?; }
         for (i, op) in inputs.iter().enumerate() { client.write(parse_event(op).ok_or("bad event")?).map_err(|e| format!("write{}:{:?}", i, e))?; }
         client.shutdown().map_err(|e| format!("shutdown:{:?}", e))?;
         drop(client);
@@ -177,9 +191,9 @@ pub fn run_conn(c: &Cfg, s: &SrvCfg) -> Run {
     let first = log.frames.iter().find(|f| f.len() >= 12 && f[7] >> 2 == 14).map(|f| ((f[10] as u32) << 8) | f[11] as u32).unwrap_or(0);
     let srvmsgs: Vec<String> = log.srv_msgs.iter().map(|m| hex(m)).collect();
     let capsh: Vec<String> = s.caps.iter().map(|x| hex(x)).collect();
-    let line = format!("conn w={} h={} lay={} name={} dom8={} usr8={} pwd8={} hash={} ra={} blank={} auto={} nla={} ssel={} id={} uid={} ver={} licnew={} share={} source={} caps={} cflags={:08x} inputs={} sel={} first={} srvmsgs={} ccr={} au={} cj1={} cj2={} lic={} key={} dom16={} usr16={} neg={} chal={} cc={} ek={} pw16={} ud16={} cp16={} cp8={} spk={} r2obs={}",
+    let line = format!("conn w={} h={} lay={} name={} dom8={} usr8={} pwd8={} hash={} ra={} blank={} auto={} nla={} ssel={} id={} uid={} ver={} licnew={} share={} source={} caps={} cflags={:08x} react={} inputs={} sel={} first={} srvmsgs={} ccr={} au={} cj1={} cj2={} lic={} key={} dom16={} usr16={} neg={} chal={} cc={} ek={} pw16={} ud16={} cp16={} cp8={} spk={} r2obs={}",
         c.w, c.h, c.lay, hex(c.name.as_bytes()), hex(c.dom.as_bytes()), hex(c.user.as_bytes()), hex(c.pw.as_bytes()), c.hash as u8, c.ra as u8, c.blank as u8, c.auto as u8, c.nla as u8,
-        s.sel, s.id, s.uid, s.version, s.license_new as u8, s.share, hex(&s.source), capsh.join(","), s.chal_flags, s.inputs.join(","),
+        s.sel, s.id, s.uid, s.version, s.license_new as u8, s.share, hex(&s.source), capsh.join(","), s.chal_flags, s.reactivate.map(|x| x.to_string()).unwrap_or("-".into()), s.inputs.join(","),
         log.sel, first, srvmsgs.join(","), hex(&log.ccr), hex(&log.au), hex(log.cjc.get(0).unwrap_or(&vec![])), hex(log.cjc.get(1).unwrap_or(&vec![])), hex(&log.lic), hex(&key), hex(&utf16(&c.dom)), hex(&utf16(&c.user)), hex(&nego), hex(&log.chal), hex(&cc), hex(&log.k.clone().unwrap_or(vec![0; 16])),
         hex(&utf16(&c.pw)), hex(&utf16(&(c.user.to_uppercase() + &c.dom))), hex(&utf16(&client_pw)), hex(client_pw.as_bytes()), hex(&spk), r2obs);
     Run { status, log, line, out }
@@ -209,14 +223,81 @@ pub fn secrets_violation(c: &Cfg, r: &Run) -> Option<String> {
     None
 }
 
+/// C02: certificate checking gates TLS.  The reference server presents a self-signed
+/// certificate; observed: did the TLS handshake complete at the server, did any NTLM / MCS
+/// byte arrive afterwards, did the connect succeed.
+pub fn tlsgate(em: &mut Emitter, check: bool, nla: bool, ra: bool, ssel: u32) {
+    let c = Cfg { w: 800, h: 600, lay: 0x409, name: "rdp-rs".into(), dom: "d".into(), user: "u".into(), pw: "secret-pw".into(), hash: false, ra, blank: false, auto: false, nla, check };
+    let s = SrvCfg { sel: ssel, id: 1, uid: 1004, version: 0x80004, license_new: false, share: 0x103ea, caps: default_caps(), source: vec![], chal_flags: 0x62898235, inputs: vec![], script: vec![], reactivate: None };
+    let r = run_conn(&c, &s);
+    let tls_up = r.log.note != "tls accept failed" && (!r.log.m1.is_empty() || !r.log.frames.is_empty());
+    let cred = !r.log.m1.is_empty() || !r.log.m2.is_empty() || r.log.frames.len() > 5;
+    let out = format!("tls={} cred={} connect={}", if tls_up { "up" } else { "refused" }, cred as u8, if r.status == "ok" { "ok" } else { "E" });
+    let line = format!("tlsgate check={} nla={} ra={} ssel={} sel={}", check as u8, nla as u8, ra as u8, ssel, r.log.sel);
+    let mut obs = Obs::new(out).nt(true).tag("tlsgate");
+    if check && (tls_up || cred) { obs = obs.viol("certificate checking enabled, untrusted certificate, but the client went on"); }
+    em.case(&line, move || obs);
+}
+
+/// implementation-side oracle of C03: the reference server's view of the sequence — mandated
+/// order, each PDU carrying the identifiers the server assigned
+pub fn sequence_violation(s: &SrvCfg, r: &Run) -> Option<String> {
+    if r.status != "ok" { return Some(format!("connection did not complete: {}", r.status)); }
+    let fr = &r.log.frames;
+    let kind = |f: &Vec<u8>| -> u8 { if f.len() < 8 { 0 } else if f[7] == 0x7f { 0x7f } else { f[7] >> 2 } };
+    let n_act = if s.reactivate.is_some() { 2 } else { 1 };
+    let want_min = 6 + 5 * n_act + s.inputs.len() + 1;
+    if fr.len() != want_min { return Some(format!("{} frames, expected {}", fr.len(), want_min)); }
+    let head: Vec<u8> = fr[..6].iter().map(kind).collect();
+    if head != vec![0x7f, 1, 10, 14, 14, 25] { return Some(format!("connect phase order {:?}", head)); }
+    let uidm = s.uid - 1001;
+    let mut chans = vec![];
+    for j in &fr[3..5] { if j.len() != 12 || (((j[8] as u16) << 8) | j[9] as u16) != uidm { return Some("join request does not carry the assigned user id".into()); } chans.push(((j[10] as u16) << 8) | j[11] as u16); }
+    chans.sort(); let mut want = vec![1003u16, s.uid]; want.sort();
+    if chans != want { return Some(format!("joined channels {:?}", chans)); }
+    // every send-data-request: initiator, channel, then the share-level content
+    let mut share = s.share;
+    let mut idx = 6;
+    let payload = |f: &Vec<u8>| -> Option<Vec<u8>> {
+        if f.len() < 15 || f[7] != 0x64 { return None; }
+        if (((f[8] as u16) << 8) | f[9] as u16) != uidm || (((f[10] as u16) << 8) | f[11] as u16) != 1003 { return None; }
+        let off = if f[13] & 0x80 != 0 { 15 } else { 14 };
+        Some(f[off..].to_vec())
+    };
+    if payload(&fr[5]).is_none() { return Some("client info not sent by the assigned user on the I/O channel".into()); }
+    for a in 0..n_act {
+        if a == 1 { share = s.reactivate.unwrap(); }
+        let exp: [(u16, u8, u16); 5] = [(0x13, 0, 0), (0x17, 0x1f, 0), (0x17, 0x14, 4), (0x17, 0x14, 1), (0x17, 0x27, 0)];
+        for (pt, t2, action) in exp.iter() {
+            let p = match payload(&fr[idx]) { Some(p) => p, None => return Some(format!("frame {} is not a send-data-request of the assigned user on channel 1003", idx)) };
+            if p.len() < 10 { return Some(format!("frame {} too short", idx)); }
+            let ptype = p[2] as u16 | (p[3] as u16) << 8;
+            let sid = u32::from_le_bytes([p[6], p[7], p[8], p[9]]);
+            if ptype != *pt { return Some(format!("activation {}: frame {} has pduType {:#x}, expected {:#x}", a, idx, ptype, pt)); }
+            if sid != share { return Some(format!("activation {}: frame {} carries share id {:#x}, the server assigned {:#x}", a, idx, sid, share)); }
+            if *pt == 0x17 { if p.len() < 18 || p[14] != *t2 { return Some(format!("activation {}: frame {} pduType2 {:#x}, expected {:#x}", a, idx, p.get(14).cloned().unwrap_or(0), t2)); }
+                if *t2 == 0x14 && (p.len() < 20 || (p[18] as u16 | (p[19] as u16) << 8) != *action) { return Some(format!("activation {}: control action", a)); } }
+            idx += 1;
+        }
+    }
+    for _ in 0..s.inputs.len() {
+        let p = match payload(&fr[idx]) { Some(p) => p, None => return Some("input not sent by the assigned user".into()) };
+        if p.len() < 18 || p[14] != 0x1c || u32::from_le_bytes([p[6], p[7], p[8], p[9]]) != share { return Some("input PDU does not carry the current share id".into()); }
+        idx += 1;
+    }
+    if fr[idx][7..] != [0x21, 0x80] { return Some("shutdown did not send a disconnect provider ultimatum".into()); }
+    None
+}
+
 pub fn run_case(toks: &[&str], em: &mut Emitter) {
     let get = |k: &str| -> String { toks.iter().find(|x| x.starts_with(&format!("{}=", k))).map(|x| x[k.len() + 1..].to_string()).unwrap_or_default() };
     let s8 = |k: &str| String::from_utf8_lossy(&unhex(&get(k))).to_string();
     let b = |k: &str| get(k) == "1";
-    let c = Cfg { w: get("w").parse().unwrap_or(800), h: get("h").parse().unwrap_or(600), lay: get("lay").parse().unwrap_or(0x409), name: s8("name"), dom: s8("dom8"), user: s8("usr8"), pw: s8("pwd8"), hash: b("hash"), ra: b("ra"), blank: b("blank"), auto: b("auto"), nla: b("nla") };
+    let c = Cfg { w: get("w").parse().unwrap_or(800), h: get("h").parse().unwrap_or(600), lay: get("lay").parse().unwrap_or(0x409), name: s8("name"), dom: s8("dom8"), user: s8("usr8"), pw: s8("pwd8"), hash: b("hash"), ra: b("ra"), blank: b("blank"), auto: b("auto"), nla: b("nla"), check: b("check") };
     let caps: Vec<Vec<u8>> = get("caps").split(',').filter(|x| !x.is_empty()).map(|x| unhex(x)).collect();
+    if toks[0] == "tlsgate" { tlsgate(em, b("check"), b("nla"), b("ra"), get("ssel").parse().unwrap_or(0)); return; }
     let s = SrvCfg { sel: get("ssel").parse().unwrap_or(0), id: get("id").parse().unwrap_or(1), uid: get("uid").parse().unwrap_or(1004), version: get("ver").parse().unwrap_or(0x80004), license_new: b("licnew"), share: get("share").parse().unwrap_or(0x103ea),
-        caps, source: unhex(&get("source")), chal_flags: u32::from_str_radix(&get("cflags"), 16).unwrap_or(0), inputs: get("inputs").split(',').filter(|x| !x.is_empty()).map(|x| x.to_string()).collect(), script: vec![] };
+        caps, source: unhex(&get("source")), chal_flags: u32::from_str_radix(&get("cflags"), 16).unwrap_or(0), inputs: get("inputs").split(',').filter(|x| !x.is_empty()).map(|x| x.to_string()).collect(), script: vec![], reactivate: get("react").parse().ok() };
     let _ = emit(em, &c, &s);
 }
 
@@ -226,6 +307,7 @@ pub fn emit(em: &mut Emitter, c: &Cfg, s: &SrvCfg) -> Run {
     if c.ra { obs = obs.tag("ra"); } if c.blank { obs = obs.tag("blank"); } if c.hash { obs = obs.tag("hash"); } if c.auto { obs = obs.tag("auto"); }
     if r.status == "P" { obs = obs.viol("panic").tag("panic"); }
     else if let Some(v) = secrets_violation(c, &r) { obs = obs.viol(&v); }
+    else if let Some(v) = sequence_violation(s, &r) { obs = obs.viol(&v); }
     let line = r.line.clone();
     em.case(&line, move || obs);
     r
@@ -264,10 +346,10 @@ pub fn generate(prop: &str, thorough: bool, seed: u64, part: (usize, usize), em:
             idx += 1; if idx % part.1 != part.0 { continue; }
             let c = Cfg { w: *r.pick(&[800u16, 1024, 640, 1, 4096, 65535]), h: *r.pick(&[600u16, 768, 480, 1, 2048]), lay: *r.pick(&[0x409u32, 0x40c, 0x407]),
                 name: if round == 0 { "rdp-rs".into() } else { r.pick(&strs).to_string() }, dom: r.pick(&["", "DOMAIN", "домен"]).to_string(), user: r.pick(&strs).to_string(), pw: r.pick(&pws).to_string(),
-                nla: mode & 1 != 0, ra: mode & 2 != 0, blank: mode & 4 != 0, auto: mode & 8 != 0, hash: mode & 16 != 0 };
+                nla: mode & 1 != 0, ra: mode & 2 != 0, blank: mode & 4 != 0, auto: mode & 8 != 0, hash: mode & 16 != 0, check: false };
             let mut flags: u32 = 0x40000000 | 0x20000000 | 0x00800000 | 0x00080000 | 0x00008000 | 0x00000200 | 0x00000020 | 0x00000010 | 0x00000004;
             if r.chance(1, 2) { flags |= 0x02000000; } if r.chance(3, 4) { flags |= 1; }
-            let s = SrvCfg { sel: 0, id: 1 + (mode as usize % 2), uid: 1004, version: 0x80004, license_new: false, share: 0x103ea, caps: default_caps(), source: b"RDP\0".to_vec(), chal_flags: flags, inputs: vec!["P10:20:1:1".into(), "K30:1".into()], script: vec![] };
+            let s = SrvCfg { sel: 0, id: 1 + (mode as usize % 2), uid: 1004, version: 0x80004, license_new: false, share: 0x103ea, caps: default_caps(), source: b"RDP\0".to_vec(), chal_flags: flags, inputs: vec!["P10:20:1:1".into(), "K30:1".into()], script: vec![], reactivate: None };
             let run = emit(em, &c, &s);
             if prop == "C04" { emit_strict(em, &run, &mut seen); }
         }
@@ -278,7 +360,7 @@ pub fn generate(prop: &str, thorough: bool, seed: u64, part: (usize, usize), em:
     for i in 0..n {
         idx += 1; if idx % part.1 != part.0 { continue; }
         let c = Cfg { w: r.range(1, 65535) as u16, h: r.range(1, 65535) as u16, lay: *r.pick(&[0x409u32, 0x40c, 0x407]), name: r.pick(&strs).to_string(), dom: r.pick(&strs).to_string(), user: r.pick(&strs).to_string(), pw: r.pick(&pws).to_string(),
-            nla: r.chance(1, 2), ra: r.chance(1, 5), blank: r.chance(1, 5), auto: r.chance(1, 3), hash: r.chance(1, 5) };
+            nla: r.chance(1, 2), ra: r.chance(1, 5), blank: r.chance(1, 5), auto: r.chance(1, 3), hash: r.chance(1, 5), check: false };
         let uid = match i % 5 { 0 => 1001, 1 => 65535, 2 => 1002, _ => r.range(1001, 65535) as u16 };
         let mut caps = default_caps();
         if r.chance(1, 2) { let (t, n) = (r.range(30, 60) as u16, r.below(12) as usize); let b = r.bytes(n); caps.push(refsrv::cap(t, &b)); }
@@ -287,7 +369,7 @@ pub fn generate(prop: &str, thorough: bool, seed: u64, part: (usize, usize), em:
         let inputs: Vec<String> = (0..ninp).map(|_| if r.chance(1, 2) { format!("P{}:{}:{}:{}", r.below(65536), r.below(65536), r.below(4), r.below(2)) } else { format!("K{}:{}", r.below(256), r.below(2)) }).collect();
         let nsrc = r.below(6) as usize;
         let s = SrvCfg { sel: if c.nla && r.chance(1, 3) { 1 } else { 0 }, id: 1 + i % 2, uid, version: *r.pick(&[0x80004u32, 0x80001, 0x80005, 0x80010]), license_new: r.chance(1, 2), share: r.next() as u32,
-            caps, source: r.bytes(nsrc), chal_flags: 0x62898235 | if r.chance(1, 2) { 0x02000000 } else { 0 }, inputs, script: vec![] };
+            caps, source: r.bytes(nsrc), chal_flags: 0x62898235 | if r.chance(1, 2) { 0x02000000 } else { 0 }, inputs, script: vec![], reactivate: if r.chance(1, 2) { Some(r.next() as u32) } else { None } };
         let run = emit(em, &c, &s);
         if prop == "C04" { emit_strict(em, &run, &mut seen); }
     }
